@@ -731,8 +731,8 @@ func (c *client) getDefaultIdempotency(customPayload map[string][]byte) idempote
 	return state
 }
 
-func (c *client) filterSystemLocalValues(stmt *parser.SelectStatement, filtered []*message.ColumnMetadata) (row []message.Column, err error) {
-	return parser.FilterValues(stmt, filtered, func(name string) (value message.Column, err error) {
+func (c *client) filterSystemLocalValues(stmt *parser.SelectStatement, columns []*message.ColumnMetadata) (row []message.Column, err error) {
+	return parser.FilterValues(stmt, columns, func(name string) (value message.Column, err error) {
 		if name == "rpc_address" {
 			return codecs.EncodeType(datatype.Inet, c.proxy.cluster.NegotiatedVersion, c.localIP())
 		} else if name == "host_id" {
@@ -762,8 +762,8 @@ func (c *client) localIP() net.IP {
 	}
 }
 
-func (c *client) filterSystemPeerValues(stmt *parser.SelectStatement, filtered []*message.ColumnMetadata, peer *node, peerCount int) (row []message.Column, err error) {
-	return parser.FilterValues(stmt, filtered, func(name string) (value message.Column, err error) {
+func (c *client) filterSystemPeerValues(stmt *parser.SelectStatement, columns []*message.ColumnMetadata, peer *node, peerCount int) (row []message.Column, err error) {
+	return parser.FilterValues(stmt, columns, func(name string) (value message.Column, err error) {
 		if name == "data_center" {
 			return codecs.EncodeType(datatype.Varchar, c.proxy.cluster.NegotiatedVersion, peer.dc)
 		} else if name == "host_id" {
@@ -794,7 +794,7 @@ func (c *client) interceptSystemQuery(hdr *frame.Header, stmt interface{}) {
 			}
 			if columns, err := parser.FilterColumns(s, localColumns); err != nil {
 				c.send(hdr, &message.Invalid{ErrorMessage: err.Error()})
-			} else if row, err := c.filterSystemLocalValues(s, columns); err != nil {
+			} else if row, err := c.filterSystemLocalValues(s, localColumns); err != nil {
 				c.send(hdr, &message.Invalid{ErrorMessage: err.Error()})
 			} else {
 				c.send(hdr, &message.RowsResult{
@@ -817,7 +817,7 @@ func (c *client) interceptSystemQuery(hdr *frame.Header, stmt interface{}) {
 				for _, n := range c.proxy.nodes {
 					if n != c.proxy.localNode {
 						var row message.Row
-						row, err = c.filterSystemPeerValues(s, columns, n, len(c.proxy.nodes)-1)
+						row, err = c.filterSystemPeerValues(s, peersColumns, n, len(c.proxy.nodes)-1)
 						if err != nil {
 							break
 						}
